@@ -306,6 +306,66 @@ Proof.
   unfold ram_get. rewrite Hy. exists y. reflexivity.
 Qed.
 
+(* ---------- C08 across processes: a new process reads the shard from disk and runs no value pass ---------- *)
+Hypothesis deq_refl : forall a, deq a a = true.
+
+Lemma disk_entry_right st hs x c0 ks0 :
+  Inv st -> hs = map (h c0) ks0 -> disk_get deq st (compound hs) = Some x -> x = VTuple (map (v c0) ks0).
+Proof.
+  intros [Hr Hd] -> D. apply afind_some in D as (hh & Hh & He). apply deq_eq in He. subst hh.
+  destruct (Hd _ _ Hh) as [(c' & k' & Heq & _)|(c' & ks' & Heq & ->)].
+  { exfalso. exact (disjoint c' k' c0 ks0 (eq_sym Heq)). }
+  injection Heq as Heq. rewrite (map_h_eq _ _ _ _ Heq). reflexivity.
+Qed.
+
+Theorem column_restart_reads_shard col size key keys st v0 st' ev ks c i :
+  exact_key key -> get_shard keq sorted size key keys = inr (ks, c, i) ->
+  ram_get req st (h col key) = None ->
+  column_request req deq keq sorted get_hash get_value col size key keys st = (COk v0, st', ev) ->
+  Inv st ->
+  forall key' keys' c' i', exact_key key' -> In key' ks -> get_shard keq sorted size key' keys' = inr (ks, c', i') ->
+  (forall k, get_hash col k = Some (h col k)) ->
+  exists st'', column_request req deq keq sorted get_hash get_value col size key' keys' (new_process st')
+               = (COk (v col key'), st'', CHash col key' :: CKeyReq :: CKeysReq :: map (CHash col) ks)
+            /\ disk st'' = disk st'.
+Proof.
+  intros HK Hsh R H HI key' keys' c' i' HK' Hk' Hsh' Gall.
+  (* after the first request the shard is on disk *)
+  assert (Inv st' /\ exists x, disk_get deq st' (compound (map (h col) ks)) = Some x) as [HI' [x Dx]].
+  { revert H. unfold column_request. rewrite (Gall key). unfold column_evaluate. rewrite R, Hsh.
+    destruct (hash_loop req keq get_hash col (h col key) key ks) as [rh evh] eqn:L.
+    destruct (hash_loop_ok _ _ _ _ _ HK L) as [[-> ->]|[f ->]]; [|discriminate].
+    fold (compound (map (h col) ks)).
+    destruct (disk_get deq st (compound (map (h col) ks))) as [stored|] eqn:D.
+    - pose proof (disk_entry_right _ _ _ col ks HI eq_refl D) as ->.
+      unfold finish. destruct (pick keq key ks (map (v col) ks) None); intros H; injection H as _ <- _.
+      all: split; [apply inv_ram_fill; exact HI|exists (VTuple (map (v col) ks)); unfold disk_get; rewrite ram_fill_disk; exact D].
+    - destruct (value_loop get_value col ks) as [rv evv] eqn:V.
+      destruct (value_loop_ok _ _ _ _ V) as [[-> ->]|[f ->]]; [|discriminate].
+      assert (Inv (disk_set st (compound (map (h col) ks)) (VTuple (map (v col) ks)))) as HI1.
+      { destruct HI as [Hr Hd]. split; [exact Hr|]. intros hh y [Heq|Hy]; [|exact (Hd _ _ Hy)].
+        injection Heq as <- <-. right. exists col, ks. split; reflexivity. }
+      unfold finish. destruct (pick keq key ks (map (v col) ks) None); intros H; injection H as _ <- _.
+      all: split; [apply inv_ram_fill; exact HI1|eexists; unfold disk_get; rewrite ram_fill_disk; cbn; rewrite deq_refl; reflexivity]. }
+  pose proof (inv_new_process _ HI') as HIn.
+  assert (disk_get deq (new_process st') (compound (map (h col) ks)) = Some x) as Dn by exact Dx.
+  pose proof (disk_entry_right _ _ _ col ks HIn eq_refl Dn) as ->.
+  unfold column_request. rewrite (Gall key'). unfold column_evaluate.
+  assert (ram_get req (new_process st') (h col key') = None) as -> by reflexivity.
+  rewrite Hsh'.
+  destruct (hash_loop req keq get_hash col (h col key') key' ks) as [rh evh] eqn:L.
+  destruct (hash_loop_ok _ _ _ _ _ HK' L) as [[-> ->]|[f ->]].
+  2:{ exfalso. clear -L Gall get_hash_ok HK' req_refl. revert evh L. induction ks as [|k t IH]; cbn; intros evh L; [discriminate|].
+      rewrite (Gall k) in L.
+      destruct (keq k key' && negb (req (h col key') (h col k))) eqn:A.
+      { apply andb_prop in A as [A1 A2]. apply HK' in A1. subst k. rewrite req_refl in A2. discriminate. }
+      destruct (hash_loop req keq get_hash col (h col key') key' t) as [r0 ev0] eqn:L0.
+      destruct r0 as [e|hs]; [|discriminate]. injection L as L _. subst e. exact (IH _ eq_refl). }
+  fold (compound (map (h col) ks)). rewrite Dn.
+  unfold finish. rewrite (pick_map _ _ _ _ HK'), (existsb_in _ _ Hk').
+  eexists. split; [reflexivity|]. rewrite ram_fill_disk. reflexivity.
+Qed.
+
 (* ---------- F9: on a RAM miss the hash pass of the requested entry runs twice ---------- *)
 Theorem column_miss_hashes_entry_twice col size key keys st r st' ev :
   exact_key key -> In key keys -> size <> Some 0 ->
